@@ -89,6 +89,7 @@ def handle (c obs : String) : String × Bool × String :=
     let model := match inputErrR q with
       | some e => rejectStr e
       | none => fmtRResult mask (execR O false f t q)
+    let model := rejectProj model obs
     if !inputsOkR q then (model, true, "inputs not schema-conforming: property does not apply")
     else
       let ref := if Ref.hasReductionR q then none else fmtRef mask (Ref.semR O false f t q)
@@ -98,6 +99,7 @@ def handle (c obs : String) : String × Bool × String :=
     let model := match inputErrD q with
       | some e => rejectStr e
       | none => fmtDResult mask (execD O false f t q)
+    let model := rejectProj model obs
     if !inputsOkD q then (model, true, "inputs not schema-conforming: property does not apply")
     else
       let ref := if Ref.hasReductionD q then none else fmtRef mask (Ref.semD O false f t q)
